@@ -721,10 +721,10 @@ def emit_contract(c, iface_path):
             "    where T: serde::Serialize + serde::de::DeserializeOwned + std::fmt::Debug + Clone + PartialEq + sylvia::schemars::JsonSchema + 'static,"
         )
         w("    {")
-        w("        pub const fn new() -> Self { Self(std::marker::PhantomData) }")
+        w("        pub fn new() -> Self { bb::constructed(CID); Self(std::marker::PhantomData) }")
     else:
         w("    impl %s {" % c.name)
-        w("        pub const fn new() -> Self { Self }")
+        w("        pub fn new() -> Self { bb::constructed(CID); Self }")
     q = "<CQuery>" if c.custom_chain else ""
     m = "<CMsg>" if c.custom_chain else ""
     for h in c.handlers:
@@ -1073,7 +1073,7 @@ def emit_entry_glue(c, iface_path):
     pub const PEER_INST: Option<rt::registry::InstFn> = Some(peer_inst);"""
             % (c.name, cc_snake(c.name), gen, "".join(", " + x for x in [typed_args(inst, tmap_for(inst))] if x))
         )
-    w(REMOTE_GLUE % (ST, ST, ST, ST, ST, ST))
+    w(REMOTE_GLUE % (ST, ST, ST, ST, ST, ST, ST))
     w(PEER_CONST)
     # ---- entry
     store_e = "Some(store)" if not c.custom_chain else "None"
@@ -1163,7 +1163,7 @@ def emit_dyn_peer(family, i, t, chain, iface_path):
     }"""
             % (suffix, qt, qt, "\n            ".join(query_arms), key)
         )
-    out.append(REMOTE_GLUE % ("TT", "TT", "TT", "TT", "TT", "TT"))
+    out.append(REMOTE_GLUE % ("TT", "TT", "TT", "TT", "TT", "TT", "TT"))
     out.append("    pub const PEER_INST: Option<rt::registry::InstFn> = None;")
     out.append(PEER_CONST)
     out.append("}")
@@ -1194,6 +1194,10 @@ REMOTE_GLUE = """    pub fn peer_admin(addr: &Addr, admin: Option<&str>) -> Wasm
     }
     pub fn peer_schema_register(gen: &mut sylvia::schemars::gen::SchemaGenerator) {
         let _ = gen.subschema_for::<Remote<'static, %s>>();
+    }
+    pub fn peer_schema_root() -> String {
+        let root = sylvia::schemars::gen::SchemaGenerator::default().into_root_schema_for::<Remote<'static, %s>>();
+        serde_json::to_string(&root).unwrap_or_default()
     }"""
 
 PEER_CONST = """    pub const PEER: rt::registry::PeerFns = rt::registry::PeerFns {
@@ -1201,6 +1205,7 @@ PEER_CONST = """    pub const PEER: rt::registry::PeerFns = rt::registry::PeerFn
         admin: peer_admin, save_remote: peer_save_remote, resave_remote: peer_resave_remote,
         schema_name: peer_schema_name,
         schema_register: peer_schema_register,
+        schema_root: peer_schema_root,
     };"""
 
 
@@ -1718,7 +1723,11 @@ def family_f2(rng):
         ]
         if has_migrate:
             hs.append(Handler("migrate", "migrate", [Arg("a", "u32")]))
-        if reply_mode == "feature":
+        if reply_mode == "feature" and n % 2 == 1:
+            # every reply method names its handlers explicitly
+            hs.append(Handler("reply", "done_ok", reply=Reply(["done"], "success", payload_raw=True, payload=[Arg("payload", "Binary")])))
+            hs.append(Handler("reply", "done_err", reply=Reply(["done", "other"], "error", payload_raw=True, payload=[Arg("payload", "Binary")])))
+        elif reply_mode == "feature":
             hs.append(Handler("reply", "on_done", reply=Reply([], "always", payload_raw=True, payload=[Arg("payload", "Binary")])))
         elif reply_mode == "legacy":
             hs.append(Handler("reply", "reply", reply=Reply([], "always", payload_raw=True, payload=[Arg("payload", "Binary")], legacy=True)))
